@@ -449,10 +449,21 @@ type MatcherSpec struct {
 	Pattern string `json:"pattern,omitempty"` // full (default), sip, peek, over
 	Sip     int    `json:"sip,omitempty"`
 	ErrIf   bool   `json:"err_if,omitempty"` // return a matcher error instead of YES
+	// Gate, if set, makes the matcher answer NO as soon as the first byte differs from it
+	// (needs 1 byte); only gated-in streams go on to the Need/At/Eq rule.
+	Gate *int `json:"gate,omitempty"`
 }
 
 // Eval is the monitor-side reference evaluation: "yes", "no" or "more".
 func (m *MatcherSpec) Eval(prefix []byte) string {
+	if m.Gate != nil {
+		if len(prefix) < 1 {
+			return "more"
+		}
+		if int(prefix[0]) != *m.Gate {
+			return "no"
+		}
+	}
 	if m.Need == 0 {
 		if m.Const != nil && !*m.Const {
 			return "no"
@@ -487,6 +498,15 @@ func (m *MatcherSpec) match(cx *layer4.Connection) (bool, error) {
 }
 
 func (m *MatcherSpec) doMatch(cx *layer4.Connection) (bool, error) {
+	if m.Gate != nil {
+		b := cx.MatchingBytes()
+		if len(b) < 1 {
+			return false, layer4.ErrConsumedAllPrefetchedBytes
+		}
+		if int(b[0]) != *m.Gate {
+			return false, nil
+		}
+	}
 	if m.Need == 0 {
 		return m.Const == nil || *m.Const, nil
 	}
